@@ -116,8 +116,19 @@ fn case<S: Scheme>(ctx: &mut Ctx, idx: u64, rng: &mut ChaCha20Rng, large: bool) 
     let mut runs: Vec<(String, BTreeMap<String, String>)> = Vec::new();
     #[cfg(feature = "par")]
     {
-        let pools: &[usize] = if large { &[1, 2, 3, 5, 7, 16] } else if thorough { &[1, 2, 3, 5, 6, 7, 8, 12, 16] } else { &[1, 2, 3, 6, 8, 16] };
-        for &t in pools {
+        // pool sizes: 1 (reference), 2, 3, 16 and further sizes drawn per case from 4..=24 - a block-splitting
+        // slip shows only for particular (thread count, length) pairs, so the sizes must vary across cases
+        let mut pools: Vec<usize> = vec![1, 2, 3, 16];
+        let extra = if large { 3 } else if thorough { 6 } else { 3 };
+        let mut prng = ChaCha20Rng::from_seed(seed);
+        prng.set_stream(99);
+        while pools.len() < 4 + extra {
+            let t = 4 + (prng.next_u32() % 21) as usize;
+            if !pools.contains(&t) {
+                pools.push(t);
+            }
+        }
+        for &t in &pools {
             runs.push((format!("pool-{}", t), in_pool(t, || workload::<S>(seed, thorough, large))));
         }
         let reps = if large { 1 } else if thorough { 8 } else { 3 };
